@@ -1,7 +1,8 @@
 (** Executable entry point of the C10 model (symmetry actions, run at exact
     rationals) and its extraction.  ExtrOcamlBasic only: Z, positive, Q, nat stay
     inductive. *)
-From Dino Require Import Base.Ops Base.Sums Model.Deriv Model.ShallowWater Model.SHT Model.Symmetry Extract.Common.
+From Dino Require Import Base.Ops Base.Sums Gen.Legendre Model.Deriv Model.ShallowWater Model.SHT Model.Symmetry Model.Legendre
+     Thm.SymmetryLegendre Extract.Common.
 Require Extraction.
 Require Import ExtrOcamlBasic.
 
@@ -87,6 +88,22 @@ Definition run_C10 (cmd : Z) (ints : list Z) (arrs : list (list Q)) : option (li
         Some (concat (map (fun r => concat (map (fun z : Wn -> Q => tab2 I J (fun i j => z (i, j)))
                                                  (sw_bge_nodal fast R L I J N f p rad wa wb omega sinlat vort dive pot r)))
                           (seq 0 N)))
+  | 40%Z => (* associated_legendre.evaluate: guards and the radicands np.sqrt is applied to (as C01 command 30): ints M L *)
+      let M := intn ints 0 in let L := intn ints 1 in
+      Some ([qofb (legendre_accepts M L); qofb (legendre_defined M L)] ++ legendre_radicands M L)
+  | 41%Z | 42%Z => (* the Legendre table of the basis from the recurrence model (Thm/SymmetryLegendre.v leg_basis_p over
+                      Model/Legendre.v): ints fast R M L J C; arrs x, y = sqrt(1-x^2), radicands, their np.sqrt.
+                      (C >= L columns are tabulated: the zero padding of the fast layout)
+                      41: the table [R,J,C];  42: its parity residual (Model/Symmetry.v parity_residual) [R,J,C] *)
+      let fast := intb ints 0 in let R := intn ints 1 in let M := intn ints 2 in let L := intn ints 3 in let J := intn ints 4 in
+      let C := intn ints 5 in
+      if legendre_defined M L then
+        let pl := tab3 R J C (leg_basis_p fast (sq_table (arr arrs 2) (arr arrs 3)) J (arrf arrs 0) (arrf arrs 1) M L) in
+        if Z.eqb cmd 41 then Some pl else Some (tab3 R J C (parity_residual fast J (arr3 R J C pl)))
+      else None
+  | 43%Z => (* the radicand of y = np.sqrt(1 - x*x) and the residuals of the node symmetries: arrs x y -> y2 [J] ++ x[J-1-j]+x[j] [J] ++ y[J-1-j]-y[j] [J] *)
+      let J := length (arr arrs 0) in let x := arrf arrs 0 in let y := arrf arrs 1 in
+      Some (map (fun t => leg_y2 t) (arr arrs 0) ++ qtab J (fun j => x (J - 1 - j)%nat + x j) ++ qtab J (fun j => y (J - 1 - j)%nat - y j))
   | _ => None
   end.
 
